@@ -243,6 +243,13 @@ def run_component(ctx, comp, extra_args=None):
                               {"component": comp, "case": cf[:-1], "observed": observed[:4000], "model": model_out[:4000]}, True)
         elif observed != model_out:
             ndis += 1
+            deep = registry.DEEP_SEARCH.get(cf[0])
+            if deep and ndis <= 2:
+                w = deep(ctx, cf)
+                if w:
+                    ctx.violation("spec", "%s: model and implementation disagree, and a failing input was found from that state" % comp,
+                                  dict(w, component=comp, case=cf[:-1]), True)
+                    continue
             if ndis <= 3:
                 ctx.violation("correspondence", "%s: model and implementation disagree (Spec still holds on this case)" % comp,
                               {"component": comp, "case": cf[:-1], "observed": observed[:4000], "model": model_out[:4000],
@@ -297,20 +304,7 @@ def main():
         return ok, pr
     ok, pr = with_lock(locked)
     if ok:
-        if not pr and getattr(ctx, "broken_build", None):
-            # a proof obligation no longer checks: run the property's failing-input search
-            found = None
-            srch = cfg.get("search")
-            if srch:
-                try:
-                    found = srch(ctx, ctx.broken_build)
-                except Exception as e:  # the search must never mask the broken obligation
-                    ctx.notes.append("search raised %r" % (e,))
-            if found:
-                ctx.violation("proof", "proof obligation broken and a failing input was found on the real code", found, True)
-            else:
-                ctx.violation("proof", "proof obligation no longer checks",
-                              {"names": "lake build " + " ".join(cfg["modules"]), "broken": ctx.broken_build}, False)
+        proof_broken = (not pr) and getattr(ctx, "broken_build", None)
         # correspondence (needs the driver; if the Lean build broke, rebuild just the driver)
         have_driver = pr or with_lock(lambda: lake_build(ctx, ["sxdriver"])[0] == 0)
         if have_driver:
@@ -323,6 +317,24 @@ def main():
             ctx.violation("correspondence", "model driver does not build", {"names": "lake build sxdriver"}, False)
         for extra in cfg.get("extra", []):
             extra(ctx)
+        if proof_broken:
+            # a proof obligation no longer checks.  The components above ARE the failing-input search on
+            # the real code (Spec verdicts on observed outputs); a property-specific deeper search may follow.
+            found = any(f for _, f, _ in ctx.violations)
+            srch = cfg.get("search")
+            if not found and srch:
+                try:
+                    os.environ["VERIF_SEARCH"] = "1"
+                    srch(ctx, ctx.broken_build)
+                    found = any(f for _, f, _ in ctx.violations)
+                except Exception as e:  # the search must never mask the broken obligation
+                    ctx.notes.append("search raised %r" % (e,))
+            if found:
+                ctx.notes.append("proof obligation broken (lake build %s); failing input(s) found, see the spec violations" % " ".join(cfg["modules"]))
+                ctx.coverage["broken_obligation"] = ctx.broken_build
+            else:
+                ctx.violation("proof", "proof obligation no longer checks",
+                              {"names": "lake build " + " ".join(cfg["modules"]), "broken": ctx.broken_build}, False)
     write_evidence(ctx, cfg)
     for k in ctx.known:
         print(k)
